@@ -455,7 +455,7 @@ func genBatches(t *rapid.T, label string, members []int, unique map[int]bool, al
 	}
 	if allowDeletes {
 		// identical rewrites: an Update of a document already inserted by an earlier batch
-		if rapid.IntRange(0, 2).Draw(t, label+"Rewrites") == 0 && len(batches) > 0 {
+		if rapid.IntRange(0, 1).Draw(t, label+"Rewrites") == 0 && len(batches) > 0 {
 			k := rapid.IntRange(1, 3).Draw(t, label+"NRewrites")
 			for j := 0; j < k; j++ {
 				bi := rapid.IntRange(0, len(batches)-1).Draw(t, label+"RwFrom")
@@ -572,7 +572,7 @@ func genRecipe(t *rapid.T, label string, docs []Doc, mode string) Recipe {
 			opens = []string{"nrt", "backup"}
 		}
 		r.Open = rapid.SampledFrom(opens).Draw(t, label+"Open")
-		r.Settle = r.Open == "nrt" && r.Conf.Merge != "none" && rapid.IntRange(0, 2).Draw(t, label+"Settle") > 0
+		r.Settle = r.Open == "nrt" && r.Conf.Merge != "none" && rapid.IntRange(0, 5).Draw(t, label+"Settle") > 0
 		r.fixNothingWritten()
 	case "offline":
 		order := idx(n)
